@@ -408,6 +408,10 @@ pub fn run_mode(opts: &Options, prop: &str) -> Report {
         let mut aborted: Option<String> = None;
         let mut rolled_back = false;
         let in_lc_delivery = std::cell::Cell::new(false);
+        // a batch of block filters of a peer whose chain does not contain the stored tip (it has
+        // not followed the reorganisation yet) moved the filtered height: the filters of ITS blocks
+        // above the fork point were taken for the blocks of the stored tip's chain
+        let mut foreign_filters: Option<String> = None;
         // C08: after a crash INSIDE the fork handling (records above the fork point deleted, the
         // rollback batch not written) half of the runs continue on the OLD branch, which has
         // grown beyond the new one meanwhile (the reorganisation is reorganised away)
@@ -547,6 +551,39 @@ pub fn run_mode(opts: &Options, prop: &str) -> Report {
                                     }
                                 }
                                 let after = observe_all(&node, branches, serving);
+                                if kind == "BlockFilters" && after.min_f > before.min_f && foreign_filters.is_none() {
+                                    let tip_hash = node.i().storage.get_tip_header().calc_header_hash();
+                                    let pb = peer_branch.get(p.value()).copied().unwrap_or(serving);
+                                    if branches[pb].chain.number_of_hash(&tip_hash).is_none() {
+                                        // the first block on which the peer's chain and the tip's differ
+                                        if let Some(tb) = branch_of_tip(&node, branches, serving) {
+                                            let fp = (0..=branches[pb].chain.tip_number().min(branches[tb].chain.tip_number()))
+                                                .rev()
+                                                .find(|m| branches[pb].chain.header(*m).hash() == branches[tb].chain.header(*m).hash())
+                                                .unwrap_or(0);
+                                            if after.min_f > fp {
+                                                foreign_filters = Some(format!(
+                                                    "peer {} (still on branch {}, which parts from the stored tip's branch {} after block {}) moved the filtered height from {} to {}",
+                                                    p, pb, tb, fp, before.min_f, after.min_f
+                                                ));
+                                                rep.count_class("filters-of-a-lagging-peer-accepted");
+                                            }
+                                        }
+                                    }
+                                }
+                                if debug {
+                                    eprintln!(
+                                        "  step {:?}: peer {} (branch {}) {} start {:?}: {} => {} | tip {}",
+                                        step,
+                                        p,
+                                        peer_branch.get(p.value()).copied().unwrap_or(serving),
+                                        kind,
+                                        start,
+                                        show_obs(&before),
+                                        show_obs(&after),
+                                        { let t = node.i().storage.get_tip_header(); let n: u64 = t.raw().number().unpack(); n }
+                                    );
+                                }
                                 let op = if rp == SupportProtocols::LightClient.protocol_id() {
                                     let tip_after = node.i().storage.get_tip_header().calc_header_hash();
                                     if tip_after != tip_before && chain.number_of_hash(&tip_before).is_none() {
@@ -600,6 +637,9 @@ pub fn run_mode(opts: &Options, prop: &str) -> Report {
                                     }
                                     let _ = number;
                                     rep.count_op(if is_delete { "set-delete-other" } else { "set-partial-other" });
+                                    if debug {
+                                        eprintln!("  set_scripts {} => {}", lines[lines.len() - 1], show_obs(&observe_all(&node, branches, serving)));
+                                    }
                                     lines.push(line);
                                     impls.push(String::new());
                                     lines.push("dump".into());
@@ -833,7 +873,14 @@ pub fn run_mode(opts: &Options, prop: &str) -> Report {
             );
         }
         if !other.is_empty() {
-            rep.violate(&format!("{}|history-missing", prop), "after the chain moved and the sync converged the history misses activity of the new chain", replay(format!("# scripts registered from {}; missing: {:?}", reg_start, show(&other))));
+            match &foreign_filters {
+                Some(how) => rep.violate(
+                    &format!("{}|history-missing|filters-of-a-lagging-peer-accepted", prop),
+                    "while the peers follow a reorganisation one after the other, the block filters of a peer that is still on the abandoned branch are accepted for heights above the fork point (its filter hashes have the quorum of the peers that lag) although the stored tip is on the new branch: the filtered height passes blocks of the new branch that were never examined, their activity is lost",
+                    replay(format!("# {}; scripts registered from {}; missing: {:?}", how, reg_start, show(&other))),
+                ),
+                None => rep.violate(&format!("{}|history-missing", prop), "after the chain moved and the sync converged the history misses activity of the new chain", replay(format!("# scripts registered from {}; missing: {:?}", reg_start, show(&other)))),
+            }
         }
         if !extra.is_empty() {
             rep.violate(&format!("{}|history-extra", prop), "after the reorganisation and convergence the history holds entries that are not on the new chain", replay(format!("# extra: {:?}", extra)));
@@ -842,10 +889,24 @@ pub fn run_mode(opts: &Options, prop: &str) -> Report {
         let missing: Vec<String> = tcells.difference(&cells).take(4).map(|c| format!("script {} block {} tx {} index {}", c.0, c.1, short(&c.2), c.3)).collect();
         let extra: Vec<String> = cells.difference(&tcells).take(4).map(|c| format!("script {} block {} tx {} index {}", c.0, c.1, short(&c.2), c.3)).collect();
         if !missing.is_empty() {
-            rep.violate(&format!("{}|cell-missing", prop), "after the reorganisation a cell that is live on the new chain is not reported (e.g. spent only on the abandoned branch)", replay(format!("# missing: {:?}", missing)));
+            match &foreign_filters {
+                Some(how) => rep.violate(
+                    &format!("{}|cell-missing|filters-of-a-lagging-peer-accepted", prop),
+                    "the same cause seen in get_cells: a cell created in a block of the new branch that the filtered height passed on the filters of a lagging peer is not reported",
+                    replay(format!("# {}; missing: {:?}", how, missing)),
+                ),
+                None => rep.violate(&format!("{}|cell-missing", prop), "after the reorganisation a cell that is live on the new chain is not reported (e.g. spent only on the abandoned branch)", replay(format!("# missing: {:?}", missing))),
+            }
         }
         if !extra.is_empty() {
-            rep.violate(&format!("{}|cell-extra", prop), "after the reorganisation a cell is reported live that is not live on the new chain", replay(format!("# extra: {:?}", extra)));
+            match &foreign_filters {
+                Some(how) => rep.violate(
+                    &format!("{}|cell-extra|filters-of-a-lagging-peer-accepted", prop),
+                    "the same cause seen in get_cells: a cell spent in a block of the new branch that was never examined is still reported live",
+                    replay(format!("# {}; extra: {:?}", how, extra)),
+                ),
+                None => rep.violate(&format!("{}|cell-extra", prop), "after the reorganisation a cell is reported live that is not live on the new chain", replay(format!("# extra: {:?}", extra))),
+            }
         }
         } // crash points
     }
